@@ -462,6 +462,13 @@ impl<'h> Exec<'h> {
                 detail = format!("{detail} [file order within a level unsound since op {op} ({kind}): {what}]");
             }
         }
+        if self
+            .violations
+            .iter()
+            .any(|v| v.property == property && v.class == class)
+        {
+            return;
+        }
         self.violations.push(Violation {
             property: property.to_string(),
             class,
@@ -669,7 +676,33 @@ impl<'h> Exec<'h> {
         prog: &[Cur],
         what: &str,
     ) -> bool {
+        // Transition signature: the most recent absolute positioning call, the call before this
+        // one, this call, and where the reference stood before it.  It names the specific call
+        // sequence that fails.
+        let ck = |c: &Cur| match c {
+            Cur::First => "first",
+            Cur::Last => "last",
+            Cur::Seek(_) => "seek",
+            Cur::Next => "next",
+            Cur::Prev => "prev",
+        };
+        let mut last_abs = "open";
+        let mut prev_call = "open";
+        let what_owned = what.to_string();
         for (pi, c) in prog.iter().enumerate() {
+            let ref_state = if refcur.idx < 0 {
+                "start"
+            } else if refcur.idx as usize >= refcur.items.len() {
+                "end"
+            } else {
+                "mid"
+            };
+            let sig = format!("{what_owned}:{last_abs}/{prev_call}>{}@{ref_state}", ck(c));
+            let what = sig.as_str();
+            if matches!(c, Cur::First | Cur::Last | Cur::Seek(_)) {
+                last_abs = ck(c);
+            }
+            prev_call = ck(c);
             let r = match c {
                 Cur::First => cursor.seek_to_first(),
                 Cur::Last => cursor.seek_to_last(),
@@ -681,7 +714,7 @@ impl<'h> Exec<'h> {
                 let e = format!("{e}");
                 self.violate(
                     property,
-                    format!("{what}-error:{}", err_class(&e)),
+                    format!("{what}:error:{}", err_class(&e)),
                     format!("cursor call #{pi} {c:?} returned error: {e}"),
                 );
                 return false;
@@ -702,12 +735,12 @@ impl<'h> Exec<'h> {
                         if self.model.get(gk).map(|v| v.is_none()).unwrap_or(false)
                             && property == "C03" =>
                     {
-                        "scan-returned-deleted-key".to_string()
+                        format!("{what}:returned-deleted-key")
                     }
-                    (Some((_, None)), _) => format!("{what}-returned-tombstone"),
-                    (None, Some(_)) => format!("{what}-missing-key"),
-                    (Some(_), None) => format!("{what}-extra-key"),
-                    _ => format!("{what}-wrong-entry"),
+                    (Some((_, None)), _) => format!("{what}:tombstone-surfaced"),
+                    (None, Some(_)) => format!("{what}:missing-key"),
+                    (Some(_), None) => format!("{what}:extra-key"),
+                    _ => format!("{what}:wrong-entry"),
                 };
                 let g = got
                     .as_ref()
@@ -728,52 +761,71 @@ impl<'h> Exec<'h> {
         true
     }
 
-    fn do_scan(&mut self, lo: &Bnd, hi: &Bnd, prog: &[Cur]) -> Result<(), String> {
-        let lob = to_bound(lo);
-        let hib = to_bound(hi);
-        // SAFETY: the cursor is dropped at the end of this function, before the store can be.
-        let store: &Store = unsafe { &*(self.store.as_ref().ok_or("store closed")? as *const Store) };
-        let mut cursor = store.scan(&lob, &hib)?;
-        self.probes.hit("scans");
-        if self.oracles.c03 {
-            let items = model::live_listing(&self.model, lo, hi);
-            if items.is_empty() {
-                self.probes.hit("scan_empty_range");
+    /// Compare a drained listing with the model's; returns a symptom or None.
+    fn listing_symptom(
+        &self,
+        got: &[(Vec<u8>, Vec<u8>)],
+        want: &[(Vec<u8>, Vec<u8>)],
+    ) -> Option<(String, String)> {
+        if got == want {
+            return None;
+        }
+        for (k, v) in got.iter() {
+            if v.as_slice() == b"<TOMBSTONE>" {
+                return Some(("tombstone-surfaced".into(), format!("key {}", fmt_key(k))));
             }
-            let mut refcur = RefCursor::new(items);
-            let ok = self.run_prog_against("C03", cursor.as_mut(), &mut refcur, prog, "scan");
-            if ok {
-                // agreement with point reads at the same moment, over the whole universe
-                let listing = drain_forward(cursor.as_mut())?;
-                for hk in self.h.keys.iter() {
-                    let k = &hk.0;
-                    if !model::in_bounds(k, lo, hi) {
-                        continue;
+        }
+        for w in got.windows(2) {
+            if w[0].0 >= w[1].0 {
+                return Some((
+                    "not-strictly-ordered".into(),
+                    format!("{} then {}", fmt_key(&w[0].0), fmt_key(&w[1].0)),
+                ));
+            }
+        }
+        for (k, v) in got.iter() {
+            match self.model.get(k) {
+                Some(None) => {
+                    return Some(("returned-deleted-key".into(), format!("key {}", fmt_key(k))))
+                }
+                None => {
+                    return Some(("returned-unwritten-key".into(), format!("key {}", fmt_key(k))))
+                }
+                Some(Some(mv)) => {
+                    if !want.iter().any(|(wk, _)| wk == k) {
+                        return Some(("returned-key-out-of-bounds".into(), format!("key {}", fmt_key(k))));
                     }
-                    let (pv, _) = store.load(k)?;
-                    let sv = listing.iter().find(|(lk, _)| lk == k).map(|(_, v)| v.clone());
-                    if pv != sv {
-                        let class = if pv.is_none() {
-                            "scan-returned-deleted-key"
-                        } else {
-                            "scan-disagrees-with-point-read"
-                        };
-                        self.violate(
-                            "C03",
-                            class,
+                    if mv != v {
+                        return Some((
+                            "wrong-value".into(),
                             format!(
-                                "key {}: scan {} vs point read {}",
+                                "key {}: got {} model {}",
                                 fmt_key(k),
-                                fmt_val(&sv),
-                                fmt_val(&pv)
+                                fmt_val(&Some(v.clone())),
+                                fmt_val(&Some(mv.clone()))
                             ),
-                        );
-                        break;
+                        ));
                     }
                 }
             }
-        } else {
+        }
+        for (k, _) in want.iter() {
+            if !got.iter().any(|(gk, _)| gk == k) {
+                return Some(("missing-key".into(), format!("key {}", fmt_key(k))));
+            }
+        }
+        Some(("listing-differs".into(), format!("{} vs {} entries", got.len(), want.len())))
+    }
+
+    fn do_scan(&mut self, lo: &Bnd, hi: &Bnd, prog: &[Cur]) -> Result<(), String> {
+        let lob = to_bound(lo);
+        let hib = to_bound(hi);
+        // SAFETY: every cursor is dropped inside this function, before the store can be.
+        let store: &Store = unsafe { &*(self.store.as_ref().ok_or("store closed")? as *const Store) };
+        self.probes.hit("scans");
+        if !self.oracles.c03 {
             // still exercise the programme so that errors/panics surface
+            let mut cursor = store.scan(&lob, &hib)?;
             let cur: &mut dyn Cursor = cursor.as_mut();
             for c in prog.iter() {
                 let r = match c {
@@ -784,6 +836,188 @@ impl<'h> Exec<'h> {
                     Cur::Prev => cur.prev(),
                 };
                 r.map_err(|e| format!("{e}"))?;
+            }
+            return Ok(());
+        }
+        let items = model::live_listing(&self.model, lo, hi);
+        if items.is_empty() {
+            self.probes.hit("scan_empty_range");
+        }
+        // History stratum: does a tombstone (a deleted key) lie inside the bounds?
+        let has_del = self
+            .model
+            .iter()
+            .any(|(k, v)| v.is_none() && model::in_bounds(k, lo, hi));
+        let bk = |b: &Bnd| match b {
+            Bnd::Unb => "u",
+            Bnd::Inc(_) => "i",
+            Bnd::Exc(_) => "e",
+        };
+        let tag = format!("{}:lo-{}:hi-{}", if has_del { "del" } else { "nodel" }, bk(lo), bk(hi));
+        let tag = tag.as_str();
+        if has_del {
+            self.probes.hit("scan_over_deleted_key");
+        }
+
+        // (A) forward drain
+        let mut fwd_listing: Option<Vec<(Vec<u8>, Vec<u8>)>> = None;
+        {
+            let mut cursor = store.scan(&lob, &hib)?;
+            match drain_forward(cursor.as_mut()) {
+                Ok(listing) => {
+                    if let Some((sym, what)) = self.listing_symptom(&listing, &items) {
+                        self.violate(
+                            "C03",
+                            format!("fwd:{sym}:{tag}"),
+                            format!("forward drain of ({lo:?}, {hi:?}): {what}; got {} entries, model {}", listing.len(), items.len()),
+                        );
+                    }
+                    fwd_listing = Some(listing);
+                }
+                Err(e) => self.violate(
+                    "C03",
+                    format!("fwd:error:{}:{tag}", err_class(&e)),
+                    format!("forward drain failed: {e}"),
+                ),
+            }
+        }
+        // (B) backward drain
+        {
+            let mut cursor = store.scan(&lob, &hib)?;
+            let cur: &mut dyn Cursor = cursor.as_mut();
+            let mut listing = Vec::new();
+            let mut err = None;
+            if let Err(e) = cur.seek_to_last() {
+                err = Some(format!("{e}"));
+            }
+            while err.is_none() {
+                if let Err(e) = cur.prev() {
+                    err = Some(format!("{e}"));
+                    break;
+                }
+                match cur.key_value() {
+                    Some(kv) => listing.push((
+                        kv.key.to_vec(),
+                        kv.value.map(|v| v.to_vec()).unwrap_or_else(|| b"<TOMBSTONE>".to_vec()),
+                    )),
+                    None => break,
+                }
+                if listing.len() > 10_000 {
+                    err = Some("backward scan did not terminate".into());
+                }
+            }
+            match err {
+                Some(e) => self.violate(
+                    "C03",
+                    format!("bwd:error:{}:{tag}", err_class(&e)),
+                    format!("backward drain failed: {e}"),
+                ),
+                None => {
+                    listing.reverse();
+                    if let Some((sym, what)) = self.listing_symptom(&listing, &items) {
+                        self.violate(
+                            "C03",
+                            format!("bwd:{sym}:{tag}"),
+                            format!("backward drain of ({lo:?}, {hi:?}): {what}; got {} entries, model {}", listing.len(), items.len()),
+                        );
+                    }
+                }
+            }
+        }
+        // (C) seek to every universe key and each seek target of the programme, then one next
+        {
+            let mut targets: Vec<Vec<u8>> = self.h.keys.iter().map(|k| k.0.clone()).collect();
+            for c in prog.iter() {
+                if let Cur::Seek(k) = c {
+                    targets.push(k.0.clone());
+                }
+            }
+            targets.sort();
+            targets.dedup();
+            let mut cursor = store.scan(&lob, &hib)?;
+            let cur: &mut dyn Cursor = cursor.as_mut();
+            'seeks: for t in targets.iter() {
+                let idx = items.partition_point(|(k, _)| k.as_slice() < t.as_slice());
+                for step in 0..2usize {
+                    let r = if step == 0 { cur.seek(t) } else { cur.next() };
+                    if let Err(e) = r {
+                        let e = format!("{e}");
+                        self.violate(
+                            "C03",
+                            format!("seek:error:{}:{tag}", err_class(&e)),
+                            format!("seek {} step {step}: {e}", fmt_key(t)),
+                        );
+                        break 'seeks;
+                    }
+                    let want = items.get(idx + step).cloned();
+                    let got = cur
+                        .key_value()
+                        .map(|kv| (kv.key.to_vec(), kv.value.map(|v| v.to_vec())));
+                    let same = match (&got, &want) {
+                        (None, None) => true,
+                        (Some((gk, Some(gv))), Some((wk, wv))) => gk == wk && gv == wv,
+                        _ => false,
+                    };
+                    if !same {
+                        let sym = match (&got, &want) {
+                            (Some((gk, _)), _) if self.model.get(gk).map(|v| v.is_none()).unwrap_or(false) => "returned-deleted-key",
+                            (Some((_, None)), _) => "tombstone-surfaced",
+                            (None, Some(_)) => "missing-key",
+                            (Some(_), None) => "extra-key",
+                            _ => "wrong-entry",
+                        };
+                        let what = if step == 0 { "seek" } else { "seek-next" };
+                        self.violate(
+                            "C03",
+                            format!("{what}:{sym}:{tag}"),
+                            format!(
+                                "seek({}){}: got {:?}, model {:?}",
+                                fmt_key(t),
+                                if step == 1 { " then next" } else { "" },
+                                got.as_ref().map(|(k, v)| format!("{}={}", fmt_key(k), fmt_val(v))),
+                                want.as_ref().map(|(k, v)| format!("{}={}", fmt_key(k), fmt_val(&Some(v.clone())))),
+                            ),
+                        );
+                        break 'seeks;
+                    }
+                }
+            }
+        }
+        // (D) the seeded programme against the reference cursor
+        {
+            let fwd_only = prog.iter().all(|c| !matches!(c, Cur::Prev | Cur::Last));
+            let bwd_only = prog.iter().all(|c| !matches!(c, Cur::Next | Cur::First | Cur::Seek(_)));
+            let kind = if fwd_only {
+                "prog-fwd"
+            } else if bwd_only {
+                "prog-bwd"
+            } else {
+                "prog-mixed"
+            };
+            let mut cursor = store.scan(&lob, &hib)?;
+            let mut refcur = RefCursor::new(items.clone());
+            let _ = kind;
+            let b = if matches!((lo, hi), (Bnd::Unb, Bnd::Unb)) { "unbounded" } else { "bounded" };
+            self.run_prog_against("C03", cursor.as_mut(), &mut refcur, prog, &format!("prog:{b}"));
+        }
+        // (E) agreement with point reads at the same moment, over the whole universe
+        if let Some(listing) = fwd_listing {
+            for hk in self.h.keys.iter() {
+                let k = &hk.0;
+                if !model::in_bounds(k, lo, hi) {
+                    continue;
+                }
+                let (pv, _) = store.load(k)?;
+                let sv = listing.iter().find(|(lk, _)| lk == k).map(|(_, v)| v.clone());
+                if pv != sv {
+                    let sym = if pv.is_none() { "scan-has-key-load-does-not" } else if sv.is_none() { "load-has-key-scan-does-not" } else { "values-differ" };
+                    self.violate(
+                        "C03",
+                        format!("vs-load:{sym}:{tag}"),
+                        format!("key {}: scan {} vs point read {}", fmt_key(k), fmt_val(&sv), fmt_val(&pv)),
+                    );
+                    break;
+                }
             }
         }
         Ok(())
